@@ -197,7 +197,7 @@ def _run_ob(ob, name, tier, seed, t0):
     # real code (bounded, labelled); a failing input found there is a genuine violation of the contract with a replay.
     if gaps and not ob.opts.get('canary'):
         fb = numeric_fallback(ob, seed, n=ob.opts.get('gap_samples', 200))
-        out['gap_fallback'] = dict(tried=fb['tried'], failed=sorted(fb['found']))
+        out['gap_fallback'] = dict(tried=fb['tried'], failed=sorted(fb['found']), inconclusive=sorted(fb['suspect']))
         for cname, rec in fb['found'].items():
             verdicts[cname] = 'failed'
             cex.setdefault('found', {})[cname] = rec
@@ -218,18 +218,26 @@ def _run_ob(ob, name, tier, seed, t0):
     return out
 
 
+GENERIC_REGIMES = {'generic', 'large', 'identity', 'zero'}
+
+
 def numeric_fallback(ob, seed, n=200):
+    """concrete twin of the contract on the real code over all regimes.  A failure at an input whose regimes are all generic-like is a
+    finding; a failure at a tiny / near-singular input is not trusted (finite-difference and round-off artefacts of the twin itself,
+    same policy as model validation) and only makes the obligation undecided."""
     rng = random.Random(seed * 31337 + 7)
-    found = {}; tried = 0
+    found = {}; suspect = {}; tried = 0
     for k in range(n):
         tried += 1
         r = E.run_numeric(ob.fn, sample=None, tol=ob.opts.get('tol', 1e-7), rng=rng)
+        trusted = set(r.get('regimes', {}).values()) <= GENERIC_REGIMES
+        tgt = found if trusted else suspect
         for cname, stt, det in r['clauses']:
-            if stt == 'failed' and cname not in found:
-                found[cname] = dict(sample=_jsonable(r['sample']), dtype='float64', detail=_jsonable(det))
-        if r['outcome'] == 'raised' and 'no_unexpected_exception' not in found:
-            found['no_unexpected_exception'] = dict(sample=_jsonable(r['sample']), dtype='float64', detail=r['error'])
-    return dict(found=found, tried=tried)
+            if stt == 'failed' and cname not in tgt:
+                tgt[cname] = dict(sample=_jsonable(r['sample']), dtype='float64', detail=_jsonable(det), regimes=sorted(set(r.get('regimes', {}).values())))
+        if r['outcome'] == 'raised' and 'no_unexpected_exception' not in tgt:
+            tgt['no_unexpected_exception'] = dict(sample=_jsonable(r['sample']), dtype='float64', detail=r['error'])
+    return dict(found=found, tried=tried, suspect={k: v for k, v in suspect.items() if k not in found})
 
 
 def find_counterexamples(ob, res, failed, seed, n=300):
